@@ -84,8 +84,9 @@ def c16a(ctx):
     inner = [l for l in loops if not any(isinstance(s, ast.For) for s in l.body)]
     if not inner:
         raise Undecided('_create_tile_list: inner loop not found')
-    tab = ctx.rows(table(inner[0].body, _none_or))
     outer = [l for l in loops if l is not inner[0]]
+    # one abstract pass through the row loop body (a per-row flag computed outside the column loop is followed)
+    tab = ctx.rows(table(outer[0].body if outer else inner[0].body, _none_or, descend_loops=True))
     xv, yv = unparse(inner[0].target), unparse(outer[0].target) if outer else '?'
     ax0, ay0, axl, ayl = _bounds_formula(tab, xv, yv, None, None)
     ok = all(len(x) == 1 for x in (ax0, ay0, axl, ayl))
